@@ -61,6 +61,14 @@ var gfModules = map[string]gfModule{
 	"go1.21local": {"m", "1.21"}, // a module path without a dot: its packages look like std to an import grouper that ignores ModulePath
 }
 
+// gfPkgName: in the go1.18 module the package clause differs from the directory name
+func gfPkgName(modName, dir string) string {
+	if modName == "go1.18" {
+		return "named" + dir
+	}
+	return dir
+}
+
 func refID(mod gfModule, ref, self string) string {
 	switch ref {
 	case "encoding/json":
@@ -403,8 +411,9 @@ func genfileBatch(self, modName string, idx []int, parsed []gfCase, obsOf, concO
 	for _, i := range idx {
 		pkg := fmt.Sprintf("c%d", i)
 		selfPath := mod.Path + "/" + pkg
-		files[pkg+"/doc.go"] = "// Package " + pkg + " is a case.\n//\n// +gengo:a\npackage " + pkg + "\n"
-		files[pkg+"/types.go"] = "package " + pkg + "\n\ntype T1 struct{}\n"
+		pkgName := gfPkgName(modName, pkg)
+		files[pkg+"/doc.go"] = "// Package " + pkgName + " is a case.\n//\n// +gengo:a\npackage " + pkgName + "\n"
+		files[pkg+"/types.go"] = "package " + pkgName + "\n\ntype T1 struct{}\n"
 		var script [][]pipe.ScriptPart
 		for k, f := range parsed[i].Frags {
 			script = append(script, fragScript(mod, selfPath, f, k+1)...)
@@ -485,7 +494,7 @@ func genfileBatch(self, modName string, idx []int, parsed []gfCase, obsOf, concO
 	}
 	for _, i := range idx {
 		pkg := fmt.Sprintf("c%d", i)
-		o := genfileObserve(root, mod, pkg, pkg, "a", scripts[i], mod.Path+"/"+pkg)
+		o := genfileObserve(root, mod, pkg, gfPkgName(modName, pkg), "a", scripts[i], mod.Path+"/"+pkg)
 		o["err"] = errOf[i]
 		ce := compileErrs[i]
 		if ce == nil {
